@@ -619,7 +619,7 @@ impl<T: Clone + Eq + Debug + Default> WrappedBlock<T> {
                 self.wslen,
                 self.line
             );
-            if c.is_whitespace() && self.wordlen > 0 {
+            if c.is_whitespace() && !self.word.is_empty() {
                 self.flush_word(ws_mode)?;
             }
 
